@@ -21,7 +21,8 @@ RULE = ("(a) random permutations of the default 32-group list (the model side pe
         "(a') the same construction routes plus FGConfigProvider(list, mapper=...) and the provider of FGQuery(config=list); "
         "(b') the systematic family of R-prefixed chains over {C,O} with up to 4 heavy atoms (30 patterns): the whole pool and random 5-8-element subsets "
         "(half of them seeded with a group that has two covering parents sharing an ancestor), each in 2-3 orders; (b'') lists mixing lower-case aromatic and "
-        "upper-case symbols, mostly built WITHOUT a mapper argument (the provider's fallback mapper must be wildcard R / ignore_case=True); "
+        "upper-case symbols, mostly built WITHOUT a mapper argument (the provider's fallback mapper must be wildcard R / ignore_case=True), each list then built "
+        "once more in the same process under a caller-chosen CASE-SENSITIVE mapper (model and checker instantiated with ignore_case=false); "
         "(b3) stars: a carbon centre with 2-3 equally labelled arms that end in different hetero atoms, together with sub-patterns (one arm "
         "shortened / its end a wildcard / dropped), every pattern written with its arms in its own order; (b4) lists containing patterns with "
         "reaction-centre bonds <g,h> among ordinary related patterns, mostly passed as dicts, in 3 orders (the model gets every pattern as parsed by a "
@@ -49,6 +50,7 @@ ASSUMPTIONS = ["configurations are FGConfig objects (or dicts) whose patterns th
                "default list (with its anti-patterns): closed kernel computation over Gen/FGDefault.v (C07_default_tree_is_hasse)"]
 
 VIAS = ["build", "provider", "dicts", "provider-mapper", "query"]
+CS_VIAS = ["provider-mapper-cs", "build-cs"]   # case-sensitive mapper PermutationMapper(wildcard="R", ignore_case=False)
 NOMAPPER = ["provider", "dicts"]     # construction paths that rely on the provider's fallback mapper
 
 
@@ -135,6 +137,11 @@ def generate(seed, tier, ncases=None):
             if o:
                 rng.shuffle(sp)
             cases.append(_mk("mixed-case", sp, rng.choice(NOMAPPER + NOMAPPER + VIAS), "M%d" % j))
+        # the SAME list again (same process, same pattern strings) under a caller-chosen case-sensitive mapper:
+        # the tree must be the embedding order under that mapper (nothing keyed by pattern text may carry over)
+        sp = list(specs)
+        rng.shuffle(sp)
+        cases.append(_mk("mixed-case-cs", sp, rng.choice(CS_VIAS), "M%d-cs" % j))
     for j in range(n_star):
         rng = lib.rng_for(seed, ID, 400000 + j)
         specs = fc.star_family(rng)
@@ -271,6 +278,12 @@ def coq_case(c, out):
         # groups are identified by position: the model gets them under unique labels (names may repeat)
         cfgs = fc.cfgs_term(c["specs"], labelled=True)
     defs = {"cfgs": cfgs, "out": fc.view_term(out)}
+    if c["via"] in CS_VIAS:
+        model = 'build_config_tree_from_list (mk_mapper (Some "R"%string) false []) $cfgs'
+        strict = (not fc.has_anti(c["specs"])) and fc.default_excl(c["specs"])
+        return {"defs": defs, "checks": {"agree": "tree_agreeb (%s) $out" % model,
+                                         "spec": 'C07_gen_okb (Some "R"%%string) false %s $cfgs $out' % ("true" if strict else "false")},
+                "diag": ["res_map tree_view (%s)" % model]}
     model = "build_config_tree_from_list default_mapper $cfgs"
     # the Hasse-diagram checker is applied wherever the statement applies: anti-pattern-free lists with the
     # default len_exclude_nodes, and the default list (whose anti-patterns are part of the reference relation)
